@@ -288,9 +288,7 @@ class VM:
             if n.model is None:
                 m = self.sat_model(z3.TRUE)
                 if m is None:
-                    if n.unproven or self.unproven:
-                        raise Infeasible()
-                    raise Unsupported('infeasible path reached')
+                    raise Infeasible()      # only an assume() (or a refuted unproven side) can empty a path
                 n.model = None if m is UNKNOWN else m
             val = None
             if n.model is not None:
@@ -329,10 +327,17 @@ class VM:
         """Concretise a symbolic int known to lie in [lo, hi] by forking."""
         if not isinstance(v, SInt):
             return v
-        for k in range(lo, hi):
-            if self.branch(mk_bool(v.e == k)):
-                return k
-        return hi
+        while lo < hi:                       # binary search: O(log n) decisions per path
+            mid = (lo + hi) // 2
+            if self.branch(mk_bool(v.e <= mid)):
+                hi = mid
+            else:
+                lo = mid + 1
+        return lo
+
+    def pick(self, name, n):
+        """Concrete index in [0, n) chosen by the solver (one path per feasible value)."""
+        return self.choose_int(self.new_int(name, 0, n - 1), 0, n - 1)
 
     def _fresh_int(self, name, lo=None, hi=None):
         self.fresh += 1
@@ -520,6 +525,17 @@ class VM:
                 if not self.truth(self.eq(x, y)):
                     return False
             return True
+        if isinstance(a, dict) and isinstance(b, dict):
+            if len(a) != len(b):
+                return False
+            if not deep_sym(a) and not deep_sym(b) and not any(isinstance(k, SKey) for k in list(a) + list(b)):
+                return a == b
+            for k, v in a.items():
+                kk = k.v if isinstance(k, SKey) else k
+                other = self.dict_find(b, kk)
+                if other is MISSING or not self.truth(self.eq(v, other)):
+                    return False
+            return True
         ta = type(a)
         if self.is_interp_class(ta):
             if dataclasses.is_dataclass(ta) and ta.__dataclass_params__.eq:
@@ -617,6 +633,11 @@ class VM:
                     x, y = zint(a), zint(b)
                     return mk_bool({ast.Lt: x < y, ast.LtE: x <= y, ast.Gt: x > y, ast.GtE: x >= y}[t])
                 raise Unsupported('ordering with symbolic non-int')
+            from . import models_str as ms
+            if isinstance(a, (SBytes, bytes, bytearray, ms.SStr, str)) and isinstance(b, (SBytes, bytes, bytearray, ms.SStr, str)):
+                if isinstance(a, (ms.SStr, str)) != isinstance(b, (ms.SStr, str)):
+                    raise TypeError('ordering between str and bytes')
+                return self.seq_order(t, a, b)
             if is_sym(a) or is_sym(b):
                 raise Unsupported('ordering of ' + type(a).__name__)
             for obj, other, name in ((a, b, {ast.Lt: '__lt__', ast.LtE: '__le__', ast.Gt: '__gt__', ast.GtE: '__ge__'}[t]),
@@ -641,6 +662,26 @@ class VM:
             r = self.contains(b, a)
             return r if t is ast.In else s_not(r)
         raise Unsupported('compare op')
+
+    def seq_order(self, t, a, b):
+        """Lexicographic ordering of (symbolic) bytes / str without runs."""
+        from . import models_str as ms
+        aa = ms.str_atoms(a) if isinstance(a, (ms.SStr, str)) else atoms_of(a)
+        bb = ms.str_atoms(b) if isinstance(b, (ms.SStr, str)) else atoms_of(b)
+        if any(isinstance(x, Run) for x in aa) or any(isinstance(x, Run) for x in bb):
+            raise Unsupported('ordering of bytes with runs')
+        for x, y in zip(aa, bb):
+            if isinstance(x, int) and isinstance(y, int):
+                if x != y:
+                    return CMP[t](x, y)
+                continue
+            zx, zy = ms.zt(x), ms.zt(y)
+            if zx.sort == z3.BV or zy.sort == z3.BV:
+                zx = z3.BV2Int(zx) if zx.sort == z3.BV else zx
+                zy = z3.BV2Int(zy) if zy.sort == z3.BV else zy
+            if not self.truth(mk_bool(zx == zy)):
+                return self.truth(mk_bool(zx < zy)) == (t in (ast.Lt, ast.LtE))
+        return CMP[t](len(aa), len(bb))
 
     def contains(self, container, item):
         if isinstance(container, (dict,)):
